@@ -102,7 +102,26 @@ fn observe(r: &Rope) -> Value {
     // the last character, a line break, and a letter
     let last = r.to_string().chars().last();
     let mut v = vec![];
-    for c in [last.unwrap_or('x'), '\n', 'a'] {
+    let mut queries = vec![last.unwrap_or('x'), '\n', 'a', '\u{e9}', '\u{20ac}', '\u{1F600}'];
+    // characters that share bytes with the end of the text without being it:
+    // the same low byte in another plane, the last byte alone as a code point,
+    // a character whose encoding ends with the text's last byte(s)
+    if let Some(&b) = r.to_bytes().last() {
+      for base in [0x100u32, 0x4E00, 0x1F600 & !0xff] {
+        if let Some(c) = char::from_u32(base + b as u32) {
+          queries.push(c);
+        }
+      }
+      if let Some(c) = char::from_u32(b as u32) {
+        queries.push(c);
+      }
+    }
+    if let Some(l) = last {
+      if let Some(c) = char::from_u32(l as u32 + 0x40) {
+        queries.push(c);
+      }
+    }
+    for c in queries {
       v.push(json!([c as u32, r.ends_with(c)]));
     }
     json!(v)
